@@ -58,6 +58,10 @@ func (c *conn) BeginTx(ctx context.Context, opts driver.TxOptions) (driver.Tx, e
 	if _, err := c.s.Exec(ctx, "BEGIN"); err != nil {
 		return nil, convErr(err)
 	}
+	// database/sql isolation levels: 4 = RepeatableRead, 5 = Snapshot, 6 = Serializable, 7 = Linearizable
+	if opts.Isolation >= 4 {
+		c.s.setRepeatableRead()
+	}
 	return &tx{c: c, ctx: WithWorker(context.Background(), workerOf(ctx))}, nil
 }
 
